@@ -448,6 +448,31 @@ def prop_batch(case):
             accepted += 1
             if nk < 100:
                 raise vx.ToolError("batch point dump too small (%d keys)" % nk)
+    # history-free reference: the LAST point of the first pass, evaluated alone in a fresh process.  The executor is
+    # a long-lived process, so a value frozen at the first call of a function (a function-local static initialised
+    # from its first argument) is the same in both passes above; only a process that has computed nothing before
+    # shows what the point gives "independently of what was computed before in the same process"
+    j = n - 1
+    ex = vx.Exec("vexec")
+    try:
+        t1 = ["pure_batch", 1, pts[j]["kind"]] + model_tokens(pts[j]) + ["order", 0, ";", "order", 0, ";"]
+        f = ex.call(*t1)
+    finally:
+        ex.close()
+    if isinstance(f, vx.Died):
+        if f.how.startswith("timeout"):
+            return "inconclusive"
+        return Fail("fresh executor died on a single point", how=f.how, stderr=f.stderr_tail[-1500:])
+    if isinstance(f, vx.Err):
+        return Fail("unexpected exception outside the evaluated functions (fresh process)", result=repr(f))
+    both = {("h." + k[len("b0.%d." % j):]): v for k, v in r.items() if k.startswith("b0.%d." % j)}
+    both.update({("f." + k[len("b0.0."):]): v for k, v in f.items() if k.startswith("b0.0.")})
+    bad, nk = diff_prefixed(both, "h.", "f.")
+    if bad:
+        return Fail("result for a point depends on what was computed before in the same process (differs from the "
+                    "same point evaluated alone in a fresh process)", point=j, kind=pts[j]["kind"],
+                    n_changed=len(bad), first=bad[:6])
+    label("fresh-process-reference")
     if accepted < 2:
         discard("fewer-than-2-accepted")
     return None
